@@ -43,3 +43,8 @@ func (s *Volatile) VerifRaw(key string, add, del int64) {
 	val.setDelTime(del)
 	s.data[key] = val
 }
+
+// VerifDecodeVolatile runs the set codec on a decoder (used by the state decoder stand-in).
+func VerifDecodeVolatile(d *binary.Decoder, out *Volatile) error {
+	return new(codecVolatile).DecodeTo(d, reflect.ValueOf(out).Elem())
+}
